@@ -3,10 +3,11 @@ from fractions import Fraction
 from .. import bb, chain as K, gen_chain as GC, gen_history as GH
 
 NAMESPACE = "Rbp.Props.C15"
-REQUIRED = ["counts_volume_fees_spec", "mean_exact", "biggest_first_on_ties", "fee_rule", "reward_halving"]
-LEAN_FILES = ["Rbp/Model/Callbacks.lean", "Rbp/Model/Run.lean", "Rbp/Proofs/Stats.lean"]
+REQUIRED = ["counts_volume_fees_spec", "mean_exact", "biggest_first_on_ties", "fee_rule", "reward_halving", "printed_figures_close", "float_round_to_nearest", "printed_is_nearest_decimal"]
+LEAN_FILES = ["Rbp/Model/Callbacks.lean", "Rbp/Model/Run.lean", "Rbp/Model/F64.lean", "Rbp/Proofs/Stats.lean", "Rbp/Proofs/F64.lean"]
 RULE = ("black-box `simplestats` vs the whole-program Lean model: every integer figure compared exactly; every printed float p with d decimals must satisfy |p - q| <= 0.5*10^-d (+1e-12 relative) for the model's exact rational q "
-        "(floats are never compared as text); the type table compared as a set (count, first height, first txid) and its shares numerically. Chains: all script types, non-monotonic timestamps, ties for both maxima, coinbases above/below/at the subsidy, coinbase-shaped transactions at any position of a block (and two-input look-alikes), "
+        "AND equal, character for character, the model's rendering of the same figure (Model/F64.lean: correctly rounded binary64 conversion / division / multiplication, `{:.k}` = round-half-even of the exact binary value, NaN for 0/0); "
+        "families for that: values beyond 2^53, volumes up to 2^64, quotients with exact decimal ties (x.xx5), ranges without transactions; the type table compared as a set (count, first height, first txid) and its shares numerically. Chains: all script types, non-monotonic timestamps, ties for both maxima, coinbases above/below/at the subsidy, coinbase-shaped transactions at any position of a block (and two-input look-alikes), "
         "heights across the 210000 halving boundary (sparse indexes), size prefixes and timestamp gaps whose sums exceed 2^32 (the size prefix is not validated, so 3 blocks with prefix 0x90000000 suffice). Hook `mean` on u32 lists incl. sums beyond 2^32, hook `basereward`. "
         "non-trivial = at least 2 blocks; distinct = distinct scenarios / requests")
 ASSUMPTIONS = ["sum of output values < 2^64; heights < 64*210000; timestamps > 0 (the code's `no previous block` test)"]
@@ -111,6 +112,40 @@ def correspondence(ctx):
             pos = off + len(raw)
             s.kvs.append(K.record(b.hash(), h, K.ACTIVE, len(b.txs), 0, off, b.header(), undo=1))
         s.meta = {"big-sums": k}
+        scns.append(s)
+    # floating-point figures at magnitudes where binary64 is inexact (values beyond 2^53, volumes up to 2^64), at exact decimal ties
+    # (x.xx5 with an exactly representable quotient: round-half-even), and the 0/0 = NaN figures of a range without transactions
+    for k in range(ctx.n(16, 120)):
+        coin = K.COINS[k % 8]
+        nb = r.randrange(1, 6)
+        blocks = []
+        budget = 2 ** 64 - 1
+        for h in range(nb):
+            kind = k % 4
+            if kind == 3 and h > 0:
+                blocks.append(K.Block([], time=2000 + 600 * h))          # no transactions at all
+                continue
+            if kind == 0:
+                vals = [r.randrange(2 ** 53, 2 ** 60) for _ in range(r.randrange(1, 4))]
+            elif kind == 1:
+                vals = [min(budget // (2 * nb), r.choice([2 ** 63 // nb, 2 ** 62 + 1, 10 ** 18 + 1]))]
+            else:
+                # sums divisible into eighths: quotients like n + 1/8, n + 3/8, n + 5/8 print with a tie at the second decimal
+                m = r.choice([8, 16, 40, 200])
+                vals = [10 ** 8 * r.randrange(1, 50) * m // 8 + 10 ** 8 // 8 * r.randrange(8)] + [0] * (m - 1)
+            vals = [v for v in vals if v <= budget]
+            budget -= sum(vals)
+            outs = [(v, GC.spk(r, coin, r.choice(["p2pkh", "p2sh", "opreturn"]))) for v in vals] or [(0, GC.spk(r, coin, "p2pkh"))]
+            txs = [GH.coinbase(h, outs)]
+            for _ in range(r.randrange(0, 3)):
+                txs.append(K.Tx([(GC.rb(r, 32), 0, b"\x01\x01", 1)] * r.randrange(1, 4), [(0, GC.spk(r, coin, "p2pkh"))] * r.randrange(1, 8)))
+            blocks.append(K.Block(txs, time=2000 + h * r.choice([600, 37, 45, 15])))
+        GH.link(blocks)
+        s = K.Scenario(coin=coin, callback="simplestats")
+        GC.simple_layout(s, blocks)
+        if k % 4 == 3 and nb > 1:
+            s.start = 1               # only blocks without transactions: every per-tx mean is 0/0
+        s.meta = {"float-figures": k}
         scns.append(s)
     bb.check(ctx, "stats-chains", scns, CMP, nontrivial=lambda s, m: len(m["delivered"]) >= 2)
     panic_sites(ctx, r)
